@@ -398,6 +398,34 @@ theorem getitem_int (a : List Nat) (ha : Valid a) (i : Int) :
     · rw [if_pos (by omega)]
     · rw [if_pos (by omega)]
 
+/-- **getitem_add**: indexing a concatenation — a non-negative position below `len(a)` reads from `a`, a position from
+    `len(a)` on reads from `b` at `i − len(a)`: `(a + b)[i] == a[i]`, `(a + b)[len(a) + j] == b[j]` -/
+theorem getitem_add (a b : List Nat) (ha : Valid a) (hb : Valid b) (i : Int) (h0 : 0 ≤ i) :
+    (i < a.length → getitem (a ++ b) (.int i) = getitem a (.int i)) ∧
+    ((a.length : Int) ≤ i → i < a.length + b.length → getitem (a ++ b) (.int i) = getitem b (.int (i - a.length))) := by
+  have hab := valid_append ha hb
+  constructor
+  · intro hi
+    obtain ⟨x, hx, hg⟩ := (getitem_int (a ++ b) hab i).1 h0 (by simp only [List.length_append]; omega)
+    obtain ⟨y, hy, hg'⟩ := (getitem_int a ha i).1 h0 hi
+    have hlt : i.toNat < a.length := by omega
+    rw [List.getElem?_append_left hlt] at hx
+    rw [hg, hg']
+    rw [hx] at hy
+    injection hy with hy
+    rw [hy]
+  · intro hlo hhi
+    obtain ⟨x, hx, hg⟩ := (getitem_int (a ++ b) hab i).1 h0 (by simp only [List.length_append]; omega)
+    obtain ⟨y, hy, hg'⟩ := (getitem_int b hb (i - a.length)).1 (by omega) (by omega)
+    have hge : a.length ≤ i.toNat := by omega
+    rw [List.getElem?_append_right hge] at hx
+    have e : i.toNat - a.length = (i - (a.length : Int)).toNat := by omega
+    rw [e] at hx
+    rw [hg, hg']
+    rw [hx] at hy
+    injection hy with hy
+    rw [hy]
+
 /-- `a[:]` and `a[...]` are `a` -/
 theorem getitem_full (a : List Nat) (ha : Valid a) :
     getitem a (.slice none none none) = .ok a ∧ getitem a .ellipsis = .ok a := by
